@@ -98,7 +98,15 @@ pub fn run() -> Report {
             let chain = if c.n >= 10_000 { crate::c03::uniform_chain(c.n) } else { dependent_chain(btc, c.base, c.n) };
             let all = chain.mblocks();
             // every other case spread over two blk files (height order leaves a file and returns to the adjacent block)
-            let world = World::laid_out(btc, &chain.blocks, c.base, if c.n >= 10_000 { 0 } else { i });
+            let mut world = World::laid_out(btc, &chain.blocks, c.base, if c.n >= 10_000 { 0 } else { i });
+            // every third case: a never-connected record whose key agrees with an active block's hash in its first / last bytes
+            if c.n >= 3 && c.n < 10_000 && i % 3 == 1 {
+                let mid = c.n / 2;
+                let b = &chain.blocks[mid];
+                let rec = refmodel::world::IndexRec { hash: b.hash(), client_version: 270000, height: c.base + mid as u64, status: refmodel::world::ACTIVE, ntx: b.txs.len() as u64, file: 0, data_pos: 0, undo_pos: 0, header: b.header.ser() };
+                world.add_key_twin(&rec, (i / 3) as u8);
+                acc.count("index-with-key-twin-record", 1);
+            }
             let tip = c.base + c.n as u64 - 1;
             let s = c.start.unwrap_or(0);
             let e = c.end.map(|e| e.min(tip)).unwrap_or(tip);
